@@ -55,10 +55,13 @@ func TestC10Handshake(t *testing.T) {
 	}
 	ns := []uint8{1, 2, 20, 254, 0}
 	idx := 0
+	lat := 20 * time.Millisecond
+	static := time.Second // 0: adaptive timeouts (the handshake timeout is boosted on every resent SYN)
 	run := func(n uint8, p pat, staleC, staleS []string, delay [2]time.Duration) {
 		idx++
 		desc := map[string]any{"n": int(n), "fc": p.c, "fs": p.s, "staleC": staleC,
-			"staleS": staleS, "delayMs": [2]int{int(delay[0] / time.Millisecond), int(delay[1] / time.Millisecond)}, "i": idx}
+			"staleS": staleS, "delayMs": [2]int{int(delay[0] / time.Millisecond), int(delay[1] / time.Millisecond)}, "i": idx,
+			"latMs": int(lat / time.Millisecond), "staticMs": int(static / time.Millisecond)}
 		noteCurrent(dir, desc)
 		mk := func(names []string) [][]byte {
 			var out [][]byte
@@ -72,7 +75,7 @@ func TestC10Handshake(t *testing.T) {
 			return out
 		}
 		cfg := gbnrun.Config{
-			N: n, Static: time.Second, Latency: 20 * time.Millisecond,
+			N: n, Static: static, Latency: lat,
 			HsDecide: func(from string, i int, pkt []byte, now time.Duration) vnet.Fate {
 				f := p.s
 				if from == "c" {
@@ -123,5 +126,32 @@ func TestC10Handshake(t *testing.T) {
 		run(n, clean, nil, nil, [2]time.Duration{0, 2500 * time.Millisecond})
 		run(n, clean, nil, nil, [2]time.Duration{1700 * time.Millisecond, 0})
 	}
+	// slow loss-free links: the round trip exceeds one, two or three of the
+	// (boosted) handshake timeouts, so the client sends two, three or four
+	// SYNs before the first answer arrives and gets as many answers; delay
+	// alone must not cost it the connection
+	for _, l := range []time.Duration{600 * time.Millisecond, 1100 * time.Millisecond,
+		1400 * time.Millisecond, 2400 * time.Millisecond} {
+		lat = l
+		run(2, clean, nil, nil, [2]time.Duration{})
+		run(20, clean, nil, nil, [2]time.Duration{0, 300 * time.Millisecond})
+		static = 0
+		run(2, clean, nil, nil, [2]time.Duration{})
+		run(20, clean, nil, nil, [2]time.Duration{0, 300 * time.Millisecond})
+		static = time.Second
+	}
+	lat = 20 * time.Millisecond
+	// adaptive timeouts: each side waits for the handshake timeout in force,
+	// which grows with every SYN the client has to resend
+	static = 0
+	for pi, p := range pats {
+		if !thorough && pi%5 != int(seed())%5 {
+			continue
+		}
+		if p.c[0] == 0 || p.s[0] == 0 {
+			run(ns[pi%3], p, nil, nil, [2]time.Duration{})
+		}
+	}
+	static = time.Second
 	ts.close(nil)
 }
